@@ -1,6 +1,7 @@
 package main
 
 import (
+	"bytes"
 	"crypto/ecdsa"
 	"crypto/elliptic"
 	crand "crypto/rand"
@@ -176,6 +177,24 @@ type history struct {
 	// OddPaths: the two paths are configured in a legal but not canonical spelling
 	// (dir/./tls.crt, dir//tls.key)
 	OddPaths bool `json:"non_canonical_path_spelling,omitempty"`
+	// PEMStyle: how complete certificate and key files are laid out on disk - all of them legal PEM that
+	// tls.X509KeyPair loads (after seeded change C14-M, a "still being written" heuristic that waited for a final newline):
+	// 0 as encoded, 1 no final newline, 2 CRLF line ends, 3 explanatory text before the first block, 4 blank lines at the end
+	PEMStyle int `json:"pem_style,omitempty"`
+}
+
+func pemStyled(b []byte, style int) []byte {
+	switch style {
+	case 1:
+		return bytes.TrimRight(b, "\r\n")
+	case 2:
+		return bytes.ReplaceAll(b, []byte("\n"), []byte("\r\n"))
+	case 3:
+		return append([]byte("subject=CN = front.example\nissuer=verif\n\n"), b...)
+	case 4:
+		return append(append([]byte{}, b...), "\n\n\n"...)
+	}
+	return b
 }
 
 func (h *history) key() string {
